@@ -39,6 +39,7 @@ structure State where
   aliases : List (List Char × List Char) := []
   traps : List (String × List Char) := []     -- condition name ↦ action (`[]` = ignore)
   umask : Nat := 0
+  fns : List (List Char × Bool) := []          -- function name ↦ read-only
   opts : List (List Char × Bool) := []         -- options set explicitly (`set ±o name`), newest last
 
 /-! ### definition commands -/
@@ -157,6 +158,31 @@ def octal3 (n : Nat) : List Char :=
   [Char.ofNat (48 + n / 64 % 8), Char.ofNat (48 + n / 8 % 8), Char.ofNat (48 + n % 8)]
 def listUmask (s : State) : List Char := octal3 s.umask ++ ['\n']
 
+/-! ### function attribute lines of `typeset -fp` -/
+
+/-- `'name'() body` [then `typeset -fr -- name`] -/
+def State.setFn (s : State) (name : List Char) (ro : Bool) : State :=
+  { s with fns := s.fns.filter (·.1 ≠ name) ++ [(name, ro)] }
+
+/-- `separator` of print_functions.rs `print_one` (characters from the generated table) -/
+def fsepOf (name : List Char) : List Char :=
+  match name with
+  | c :: _ => if Generated.QuoteTables.functionSeparatorPrefixes.contains c then "-- ".toList else []
+  | [] => []
+
+/-- attribute line of a read-only function: `typeset -fr [-- ]<name>` (`typeset` context: the line is
+    printed only when an attribute option letter applies) -/
+def printFnAttr (name : List Char) : List Char :=
+  "typeset -fr ".toList ++ fsepOf name ++ quote name ++ ['\n']
+
+def listFnAttr (s : State) : List Char :=
+  (((sortBy (·.1) s.fns).filter (·.2)).map fun f => printFnAttr f.1).flatten
+
+/-- the function name operand is not mistaken for an option -/
+def fnOperandSafe (name : List Char) : Bool :=
+  !(fsepOf name).isEmpty ||
+    !(match name with | c :: _ => optionPrefixChars.contains c | [] => false)
+
 /-! ### `set +o` -/
 
 /-- `set -o name` / `set +o name` -/
@@ -232,6 +258,11 @@ def setEntryOk (v : Var) : Bool :=
   | .array vs => readBack (joinSp (vs.map quote)) == some vs
   | .none => true
 
+def fnEntryOk (name : List Char) : Bool :=
+  fnOperandSafe name &&
+    readBack (dropNl (printFnAttr name))
+      == some (["typeset".toList, "-fr".toList] ++ (if (fsepOf name).isEmpty then [] else ["--".toList]) ++ [name])
+
 /-- Spec verdict on a state: every listed entry re-reads as the words that recreate it -/
 def stateVerdict (s : State) : String :=
   if !(s.aliases.all aliasEntryOk) then "FAIL:A:entry-does-not-reread"
@@ -240,6 +271,7 @@ def stateVerdict (s : State) : String :=
   else if !((s.vars.filter (·.readonly)).all (varEntryOk "readonly" (fun _ => []) true)) then "FAIL:R:entry-does-not-reread"
   else if !((s.vars.filter (isName ·.name)).all setEntryOk) then "FAIL:S:entry-does-not-reread"
   else if !(s.traps.all trapEntryOk) then "FAIL:T:entry-does-not-reread"
+  else if !((s.fns.filter (·.2)).all fun f => fnEntryOk f.1) then "FAIL:F:attribute-line-does-not-reread"
   else if !(Generated.OptionTable.options.all fun o => optEntryOk o.1 o.2.1 (s.optOn o.1 o.2.2)) then
     "FAIL:O:entry-does-not-reread"
   else "ok"
@@ -266,7 +298,8 @@ def applyOp (s : State) (op : String) : Option State :=
     | [a, b, c] => some { s with umask := a * 64 + b * 8 + c }
     | _ => none
   | ["o", o, st] => some (s.setOpt o.toList (st = "1"))
-  | [k, _, _] => if k = "f" || k = "fq" || k = "fk" then some s else none
+  | [k, n, _] => if k = "f" || k = "fq" || k = "fk" then do pure (s.setFn (← decChars n) false) else none
+  | [k, n, _, "r"] => if k = "f" || k = "fq" || k = "fk" then do pure (s.setFn (← decChars n) true) else none
   | _ => none
 
 /-- the umask a fresh virtual shell starts with (`Mode::default()` of the virtual system) -/
@@ -277,6 +310,6 @@ def runL (ops : List String) : String :=
   | none => "bad-case\t-"
   | some s =>
     let e (l : List Char) := encChars l
-    s!"A={e (listAlias s)} V={e (listTypeset s)} X={e (listExport s)} R={e (listReadonly s)} S={e (listSet s)} T={e (listTrap s)} U={e (listUmask s)} O={e (listSetO s)}\t{stateVerdict s}"
+    s!"A={e (listAlias s)} V={e (listTypeset s)} X={e (listExport s)} R={e (listReadonly s)} S={e (listSet s)} T={e (listTrap s)} U={e (listUmask s)} O={e (listSetO s)} Fa={e (listFnAttr s)}\t{stateVerdict s}"
 
 end YashModel.Quote.Listing
